@@ -261,6 +261,13 @@ Proof.
   - intros Hdec; inversion Hdec; subst. exists p1. split; [reflexivity|lia].
 Qed.
 
+Lemma read_n_split k b : 0 <= k <= len b -> read_n k b = ROk (ztake k b, zdrop k b).
+Proof. intros H. unfold read_n. destruct (Z.ltb_spec (len b) k); [lia|reflexivity]. Qed.
+Lemma len_zdrop b k : 0 <= k <= len b -> len (zdrop k b) = len b - k.
+Proof.
+  intros H. pose proof (ztake_zdrop b k) as Q. apply (f_equal len) in Q. rewrite len_app, len_ztake in Q by exact H. lia.
+Qed.
+
 (** ------------------------------------------------------------------ base codecs *)
 Section WithOracle.
 Variable pk_valid : bytes -> bool.
@@ -321,6 +328,14 @@ Proof.
   - (* BOnion *) pose proof (onion_norm_dom b H) as N. cbn [Combinators.bdom] in H. apply andb_true_iff in H. destruct H as [HL _].
     apply Z.eqb_eq in HL. cbn [Combinators.bdec benc]. rewrite read_n_app by exact HL. cbn [rbind]. rewrite N. reflexivity.
   - (* BBig *) cbn [Combinators.bdec benc]. rewrite bigsize_rt by lia. reflexivity.
+  - (* BOmPacket *) apply andb_true_iff in H. destruct H as [H HV]. apply andb_true_iff in H. destruct H as [L1 L2].
+    apply Z.leb_le in L1. apply Z.ltb_lt in L2.
+    cbn [Combinators.bdec benc]. rewrite <- app_assoc.
+    rewrite read_u_enc by (change (256 ^ Z.of_nat 2) with 65536; lia). cbn [rbind].
+    rewrite ztake_app_exact, zdrop_app_exact by reflexivity.
+    rewrite (read_n_split 34 b) by lia. cbn [rbind]. rewrite HV.
+    rewrite (read_n_split (Z.max 0 (len b - 66) + 32) (zdrop 34 b)) by (rewrite len_zdrop by lia; lia). cbn [rbind].
+    rewrite (ztake_all (zdrop 34 b)) by (rewrite len_zdrop by lia; lia). rewrite ztake_zdrop. reflexivity.
 Qed.
 
 (** A successful base decode consumed a prefix [p] (non-empty when [bc_pos]) and left the rest untouched. *)
@@ -362,6 +377,14 @@ Proof.
     apply read_n_inv in E. destruct E as [E1 [E2 _]]. exists x. split; [exact E1|]. intros _. rewrite E2; lia.
   - destruct (bigsize_dec b) as [[z r1]|e] eqn:E; cbn [rbind]; [|discriminate]. intros Hd; inversion Hd; subst.
     apply bigsize_consumed in E. destruct E as [p [E1 E2]]. exists p. split; [exact E1|]. intros _. exact E2.
+  - destruct (read_u 2 b) as [[n r1]|e] eqn:E; cbn [rbind]; [|discriminate].
+    destruct (read_n 34 (ztake n r1)) as [[hdr w1]|e] eqn:E'; cbn [rbind]; [|discriminate].
+    destruct (pk_valid (zdrop 1 hdr)); [|discriminate].
+    destruct (read_n (Z.max 0 (n - 66) + 32) w1) as [[body w2]|e] eqn:E''; cbn [rbind]; [|discriminate].
+    intros Hd; inversion Hd; subst.
+    apply read_u_inv in E. destruct E as [p [E1 [E2 _]]].
+    exists (p ++ ztake n r1). rewrite <- app_assoc, ztake_zdrop. split; [exact E1|]. intros _.
+    rewrite len_app. pose proof (len_nonneg (ztake n r1)). lia.
 Qed.
 
 Lemma bdec_shrinks c b v r : bc_pos c = true -> bdec c b = ROk (v, r) -> (List.length r < List.length b)%nat.
